@@ -236,7 +236,8 @@ class Plucker(SMUserList):
 
         else:
             # additional arguments
-            assert base.isvector(v, 3) and base.isvector(w, 3), 'expecting two 3-vectors'
+            if not (base.isvector(v, 3) and base.isvector(w, 3)):
+                raise ValueError('expecting two 3-vectors')
             self.data = [np.r_[v, w]]
             
         # needed to allow __rmul__ to work if left multiplied by ndarray
